@@ -703,6 +703,11 @@ def handle_end_progs(state: TokenizerState) -> Iterator[TokenInfo]:
     if state.in_colon():  # the line ends inside a format spec
         if len(state.fstring_quote()) == 3 or state.in_continued_string():
             # in a triple-quoted f-string the literal part of the spec runs on over the end of the line
+            if len(state.fstring_quote()) == 1:
+                # a single-quoted one goes on after a backslash: a quote in front of it ends the string first
+                reach = state.match(fstring_spec_literal(state.fstring_quote())).end()  # type: ignore[union-attr]
+                if reach < len(state.line.rstrip("\r\n")) - 1:
+                    raise TokenError("f-string: expecting '}'", (state.lnum, state.pos))
             state.end_progs[-1].join_line(state)
             state.pos = state.max
         else:
